@@ -3,15 +3,21 @@ import FerretVerif.Model.Toml
 /-
   Proofs/Toml.lean — C20: the TOML writer/parser round trip at the text level.
 
-  Domain predicates (all `Bool`, hence decidable): `okStr`, `bareKey`, `floatRaw`, `inInt64`, `writable`,
-  `blanks`.
-  * value level : `parseValue_formatValue`
-  * line level  : `parseLine_formatLine`, `parseLine_blanks_inert`, `parseLine_comment_inert`,
-                  `parseLine_skip_blank`, `parseLine_skip_comment`
-  * file level  : `parseFile_writeFile_ne_none`, `parseFile_writeFile_lookup`,
-                  `parseFile_writeFile_only`
+  Domain predicates (all `Bool`, hence decidable): `okStr`, `bareKey`, `floatRaw`, `inInt64`,
+  `writable`, `blanks`, `wfData`.
   The only assumption on `strconv.ParseFloat` is the hypothesis
-  `hpf : ∀ t, floatRaw t = true → pf t = true`.
+  `hpf : ∀ t, floatRaw t = true → pf t = true` of the theorems (never an axiom).
+
+  * value level : `atoi_itoa`, `formatFloat_shape`, `trimQuotes_quoted`, `parseValue_formatValue`
+  * line level  : `parseLine_formatLine`, `parseLine_blanks_inert`, `parseLine_comment_inert`
+                  (all three instances of `parseLine_general`), `parseLine_skip_blank`,
+                  `parseLine_skip_comment`, `parseLine_ne_bad_of_eq`
+  * text level  : `splitLines_line`, `parseText_formatLine`, `parseText_header`,
+                  `parseText_sections`
+  * file level  : `parseFile_writeFile_eq` (the parser ends with `finalData data`),
+                  `parseFile_writeFile_ne_none`, `parseFile_writeFile_lookup` (every written key is
+                  read back), `parseFile_writeFile_only` (no other key), `parseFile_writeFile_sections`
+                  (no other section), `parse_total`
   Core-only.
 -/
 namespace FerretVerif.Toml
@@ -973,9 +979,14 @@ theorem parseText_section_default (pf : List Char → Bool)
     {es : List (List Char × WVal)} (hes : okEntries es) (rest : List Char) (d : Data) :
     parseText pf (writeSection "default".toList es ++ rest) d []
       = parseText pf rest (applySec d ("default".toList, es)) [] := by
-  unfold writeSection applySec
-  simp only [beq_self_eq_true, if_true, List.nil_append]
-  rw [parseText_entries pf hpf rest [] es _ hes]
+  have hw : writeSection "default".toList es = (es.map fun (k, v) => formatLine k v).flatten := by
+    unfold writeSection
+    rw [if_pos (beq_self_eq_true _), List.nil_append]
+  have ha : applySec d ("default".toList, es) = applyEntries "default".toList d es := by
+    unfold applySec
+    show applyEntries _ (if ("default".toList == "default".toList) = true then d else _) es = _
+    rw [if_pos (beq_self_eq_true _)]
+  rw [hw, ha, parseText_entries pf hpf rest [] es _ hes]
   rfl
 
 theorem parseText_sections (pf : List Char → Bool) (hpf : ∀ t, floatRaw t = true → pf t = true)
@@ -1095,5 +1106,400 @@ theorem lookup_setIn (d : Data) (s k : List Char) (v : PVal) (n k' : List Char) 
     lookup (setIn d s k v) n k' = if n = s ∧ k' = k then some v else lookup d n k' := by
   rw [← lookup_ensureSection d s n k']
   exact lookup_map_setKey _ s k v n k' (find?_ensureSection_self d s)
+
+theorem lookup_applyEntries_other (s : List Char) (es : List (List Char × WVal)) :
+    ∀ d n k', (n ≠ s ∨ k' ∉ es.map (·.1)) →
+      lookup (applyEntries s d es) n k' = lookup d n k' := by
+  induction es with
+  | nil => intro d n k' _; rfl
+  | cons e es ih =>
+    intro d n k' h
+    show lookup (applyEntries s (setIn d s e.1 (expectRead e.2)) es) n k' = _
+    rw [ih _ n k' (h.imp id (fun h' hm => h' (by simp [hm]))), lookup_setIn]
+    have : ¬ (n = s ∧ k' = e.1) := by
+      rintro ⟨h1, h2⟩
+      rcases h with h | h
+      · exact h h1
+      · exact h (by simp [h2])
+    rw [if_neg this]
+
+theorem lookup_applyEntries_mem (s : List Char) (es : List (List Char × WVal)) :
+    ∀ d, (es.map (·.1)).Nodup → ∀ k v, (k, v) ∈ es →
+      lookup (applyEntries s d es) s k = some (expectRead v) := by
+  induction es with
+  | nil => intro d _ k v hm; simp at hm
+  | cons e es ih =>
+    intro d hnd k v hm
+    rw [List.map_cons, List.nodup_cons] at hnd
+    show lookup (applyEntries s (setIn d s e.1 (expectRead e.2)) es) s k = _
+    rcases List.mem_cons.mp hm with heq | hm
+    · subst heq
+      rw [lookup_applyEntries_other s es _ s _ (Or.inr hnd.1), lookup_setIn]
+      simp
+    · exact ih _ hnd.2 k v hm
+
+theorem lookup_applyEntries_inv (s : List Char) (es : List (List Char × WVal)) :
+    ∀ d n k' pv, lookup (applyEntries s d es) n k' = some pv →
+      (n = s ∧ ∃ v, (k', v) ∈ es ∧ pv = expectRead v) ∨ lookup d n k' = some pv := by
+  induction es with
+  | nil => intro d n k' pv h; exact Or.inr h
+  | cons e es ih =>
+    intro d n k' pv h
+    rcases ih _ n k' pv h with ⟨hn, v, hv, hp⟩ | h'
+    · exact Or.inl ⟨hn, v, by simp [hv], hp⟩
+    · rw [lookup_setIn] at h'
+      split at h'
+      next hc =>
+        cases h'
+        exact Or.inl ⟨hc.1, e.2, by rw [hc.2]; simp, rfl⟩
+      next => exact Or.inr h'
+
+theorem lookup_base (d : Data) (s n k : List Char) :
+    lookup (if s == "default".toList then d else ensureSection d s) n k = lookup d n k := by
+  split
+  · rfl
+  · exact lookup_ensureSection d s n k
+
+theorem lookup_foldl_other (secs : List WSection) (n k : List Char) :
+    ∀ d, n ∉ secs.map (·.1) → lookup (secs.foldl applySec d) n k = lookup d n k := by
+  induction secs with
+  | nil => intro d _; rfl
+  | cons s secs ih =>
+    intro d h
+    have h1 : n ≠ s.1 := fun e => h (by simp [e])
+    have h2 : n ∉ secs.map (·.1) := fun e => h (by simp at e ⊢; exact Or.inr e)
+    rw [List.foldl_cons, ih _ h2]
+    unfold applySec
+    rw [lookup_applyEntries_other _ _ _ _ _ (Or.inl h1), lookup_base]
+
+theorem lookup_foldl_mem (secs : List WSection) :
+    ∀ d, (secs.map (·.1)).Nodup → (∀ s ∈ secs, (s.2.map (·.1)).Nodup) →
+      ∀ n es k v, (n, es) ∈ secs → (k, v) ∈ es →
+        lookup (secs.foldl applySec d) n k = some (expectRead v) := by
+  induction secs with
+  | nil => intro d _ _ n es k v hm; simp at hm
+  | cons s secs ih =>
+    intro d hnd hk n es k v hm hkv
+    rw [List.map_cons, List.nodup_cons] at hnd
+    rw [List.foldl_cons]
+    rcases List.mem_cons.mp hm with heq | hm
+    · subst heq
+      rw [lookup_foldl_other secs _ _ _ hnd.1]
+      unfold applySec
+      exact lookup_applyEntries_mem _ _ _ (hk _ (by simp)) k v hkv
+    · exact ih _ hnd.2 (fun s' hs' => hk s' (by simp [hs'])) n es k v hm hkv
+
+theorem lookup_foldl_inv (secs : List WSection) :
+    ∀ d n k pv, lookup (secs.foldl applySec d) n k = some pv →
+      (∃ es v, (n, es) ∈ secs ∧ (k, v) ∈ es ∧ pv = expectRead v) ∨ lookup d n k = some pv := by
+  induction secs with
+  | nil => intro d n k pv h; exact Or.inr h
+  | cons s secs ih =>
+    intro d n k pv h
+    rw [List.foldl_cons] at h
+    rcases ih _ n k pv h with ⟨es, v, h1, h2, h3⟩ | h'
+    · exact Or.inl ⟨es, v, by simp [h1], h2, h3⟩
+    · unfold applySec at h'
+      rcases lookup_applyEntries_inv _ _ _ _ _ _ h' with ⟨hn, v, hv, hp⟩ | h''
+      · exact Or.inl ⟨s.2, v, by rw [hn]; simp, hv, hp⟩
+      · rw [lookup_base] at h''
+        exact Or.inr h''
+
+/-! section names present in the parser's data -/
+
+theorem names_ensureSection (d : Data) (s : List Char) :
+    ∀ x ∈ ensureSection d s, x.1 = s ∨ ∃ y ∈ d, y.1 = x.1 := by
+  intro x hx
+  unfold ensureSection at hx
+  split at hx
+  · exact Or.inr ⟨x, hx, rfl⟩
+  · rcases List.mem_append.mp hx with hx | hx
+    · exact Or.inr ⟨x, hx, rfl⟩
+    · simp at hx; subst hx; exact Or.inl rfl
+
+theorem names_setIn (d : Data) (s k : List Char) (v : PVal) :
+    ∀ x ∈ setIn d s k v, x.1 = s ∨ ∃ y ∈ d, y.1 = x.1 := by
+  intro x hx
+  unfold setIn at hx
+  obtain ⟨y, hy, rfl⟩ := List.mem_map.mp hx
+  have : (match y with | (n, t) => if n == s then (n, setKey t k v) else (n, t)).1 = y.1 := by
+    obtain ⟨n, t⟩ := y
+    show (if n == s then (n, setKey t k v) else (n, t)).1 = n
+    split <;> rfl
+  rw [this]
+  exact names_ensureSection d s y hy
+
+theorem names_applyEntries (s : List Char) (es : List (List Char × WVal)) :
+    ∀ d, ∀ x ∈ applyEntries s d es, x.1 = s ∨ ∃ y ∈ d, y.1 = x.1 := by
+  induction es with
+  | nil => intro d x hx; exact Or.inr ⟨x, hx, rfl⟩
+  | cons e es ih =>
+    intro d x hx
+    rcases ih _ x hx with h | ⟨y, hy, hxy⟩
+    · exact Or.inl h
+    · rcases names_setIn d s _ _ y hy with h | ⟨z, hz, hzy⟩
+      · exact Or.inl (hxy ▸ h)
+      · exact Or.inr ⟨z, hz, hzy.trans hxy⟩
+
+theorem names_foldl (secs : List WSection) :
+    ∀ d, ∀ x ∈ secs.foldl applySec d, (∃ s ∈ secs, s.1 = x.1) ∨ ∃ y ∈ d, y.1 = x.1 := by
+  induction secs with
+  | nil => intro d x hx; exact Or.inr ⟨x, hx, rfl⟩
+  | cons s secs ih =>
+    intro d x hx
+    rw [List.foldl_cons] at hx
+    rcases ih _ x hx with ⟨s', hs', h⟩ | ⟨y, hy, hxy⟩
+    · exact Or.inl ⟨s', by simp [hs'], h⟩
+    · unfold applySec at hy
+      rcases names_applyEntries _ _ _ y hy with h | ⟨z, hz, hzy⟩
+      · exact Or.inl ⟨s, by simp, h.symm.trans hxy⟩
+      · split at hz
+        · exact Or.inr ⟨z, hz, hzy.trans hxy⟩
+        · rcases names_ensureSection d s.1 z hz with h | ⟨w, hw, hwz⟩
+          · exact Or.inl ⟨s, by simp, (h.symm.trans hzy).trans hxy⟩
+          · exact Or.inr ⟨w, hw, (hwz.trans hzy).trans hxy⟩
+
+/-! ## The written file as a list of sections -/
+
+/-- the sections the writer emits, in its fixed order -/
+def secsOf (data : List WSection) (order : List (List Char)) : List WSection :=
+  order.filterMap fun n => (data.find? (·.1 == n)).map fun p => (n, p.2)
+
+theorem writeFile_eq_secs (data : List WSection) (order : List (List Char)) :
+    (order.filterMap fun n => (data.find? (·.1 == n)).map fun (_, es) => writeSection n es)
+      = (secsOf data order).map fun s => writeSection s.1 s.2 := by
+  unfold secsOf
+  induction order with
+  | nil => rfl
+  | cons a order ih =>
+    rw [List.filterMap_cons, List.filterMap_cons]
+    cases h : data.find? (·.1 == a) with
+    | none => simpa using ih
+    | some p => simpa using ih
+
+theorem mem_secsOf {data : List WSection} {order : List (List Char)} {s : WSection}
+    (h : s ∈ secsOf data order) : s.1 ∈ order ∧ s ∈ data := by
+  unfold secsOf at h
+  obtain ⟨n, hn, hf⟩ := List.mem_filterMap.mp h
+  obtain ⟨p, hp, hs⟩ := Option.map_eq_some_iff.mp hf
+  have hp1 : p.1 = n := by simpa using List.find?_some hp
+  have : s = p := by rw [← hs, ← hp1]
+  subst this
+  exact ⟨hp1 ▸ hn, List.mem_of_find?_eq_some hp⟩
+
+theorem find?_of_nodup {data : List WSection} (hnd : (data.map (·.1)).Nodup) {s : WSection}
+    (hs : s ∈ data) : data.find? (·.1 == s.1) = some s := by
+  induction data with
+  | nil => simp at hs
+  | cons a data ih =>
+    rw [List.map_cons, List.nodup_cons] at hnd
+    rcases List.mem_cons.mp hs with rfl | hs
+    · simp
+    · have : a.1 ≠ s.1 := fun e => hnd.1 (e ▸ List.mem_map.mpr ⟨s, hs, rfl⟩)
+      rw [List.find?_cons, beq_eq_false_iff_ne.mpr this]
+      exact ih hnd.2 hs
+
+theorem secsOf_mem {data : List WSection} (hnd : (data.map (·.1)).Nodup) {order : List (List Char)}
+    {s : WSection} (hs : s ∈ data) (ho : s.1 ∈ order) : s ∈ secsOf data order := by
+  unfold secsOf
+  exact List.mem_filterMap.mpr ⟨s.1, ho, by rw [find?_of_nodup hnd hs]; rfl⟩
+
+theorem secsOf_cons_none {data : List WSection} {a : List Char} (order : List (List Char))
+    (h : data.find? (·.1 == a) = none) : secsOf data (a :: order) = secsOf data order := by
+  unfold secsOf; rw [List.filterMap_cons, h]; rfl
+
+theorem secsOf_cons_some {data : List WSection} {a : List Char} (order : List (List Char))
+    {p : WSection} (h : data.find? (·.1 == a) = some p) :
+    secsOf data (a :: order) = (a, p.2) :: secsOf data order := by
+  unfold secsOf; rw [List.filterMap_cons, h]; rfl
+
+theorem secsOf_nodup (data : List WSection) (order : List (List Char)) (ho : order.Nodup) :
+    ((secsOf data order).map (·.1)).Nodup := by
+  induction order with
+  | nil => exact List.nodup_nil
+  | cons a order ih =>
+    rw [List.nodup_cons] at ho
+    cases h : data.find? (·.1 == a) with
+    | none => rw [secsOf_cons_none order h]; exact ih ho.2
+    | some p =>
+      rw [secsOf_cons_some order h, List.map_cons, List.nodup_cons]
+      refine ⟨?_, ih ho.2⟩
+      intro hm
+      obtain ⟨s, hs, hsa⟩ := List.mem_map.mp hm
+      have hsa' : s.1 = a := hsa
+      exact ho.1 (hsa' ▸ (mem_secsOf hs).1)
+
+/-! ## File level -/
+
+/-- well-formed writer input: known, pairwise distinct section names; in each section pairwise
+    distinct bare keys and writable values -/
+def wfData (data : List WSection) : Bool :=
+  decide (data.map (·.1)).Nodup &&
+  data.all fun s =>
+    decide (s.1 ∈ sectionOrder) && decide (s.2.map (·.1)).Nodup &&
+      s.2.all fun e => bareKey e.1 && writable e.2
+
+theorem wfData_unpack {data : List WSection} (h : wfData data = true) :
+    (data.map (·.1)).Nodup ∧ (∀ s ∈ data, s.1 ∈ sectionOrder) ∧
+      (∀ s ∈ data, (s.2.map (·.1)).Nodup) ∧ (∀ s ∈ data, okEntries s.2) := by
+  simp only [wfData, Bool.and_eq_true, decide_eq_true_eq, List.all_eq_true] at h
+  refine ⟨h.1, fun s hs => (h.2 s hs).1.1, fun s hs => (h.2 s hs).1.2, fun s hs e he => ?_⟩
+  exact (h.2 s hs).2 e he
+
+/-- the data the parser ends with -/
+def finalData (data : List WSection) : Data := (secsOf data sectionOrder).foldl applySec []
+
+def otherSections : List (List Char) :=
+  ["compiler", "build", "cache", "external", "neighbors", "dependencies"].map String.toList
+
+theorem sectionOrder_eq : sectionOrder = "default".toList :: otherSections := rfl
+
+theorem sectionOrder_nodup : sectionOrder.Nodup := by decide
+theorem sectionOrder_bare : ∀ n ∈ sectionOrder, bareKey n = true := by decide
+theorem default_not_other : "default".toList ∉ otherSections := by decide
+
+/-- the parser accepts every written file and ends with `finalData` -/
+theorem parseFile_writeFile_eq (pf : List Char → Bool) (hpf : ∀ t, floatRaw t = true → pf t = true)
+    (data : List WSection) (hok : ∀ s ∈ data, okEntries s.2) :
+    parseFile pf (writeFile data) = some (finalData data) := by
+  have hsecs : ∀ s ∈ secsOf data otherSections,
+      bareKey s.1 = true ∧ s.1 ≠ "default".toList ∧ okEntries s.2 := by
+    intro s hs
+    obtain ⟨h1, h2⟩ := mem_secsOf hs
+    refine ⟨sectionOrder_bare _ (by rw [sectionOrder_eq]; simp [h1]), ?_, hok s h2⟩
+    intro e; exact default_not_other (e ▸ h1)
+  show parseText pf (writeFile data) [] [] = _
+  unfold writeFile finalData
+  rw [writeFile_eq_secs, sectionOrder_eq]
+  cases h : data.find? (·.1 == "default".toList) with
+  | none => rw [secsOf_cons_none _ h]; exact parseText_sections pf hpf _ _ _ hsecs
+  | some p =>
+    have hp : okEntries p.2 := hok p (List.mem_of_find?_eq_some h)
+    rw [secsOf_cons_some _ h]
+    simp only [List.map_cons, List.flatten_cons, List.foldl_cons]
+    rw [parseText_section_default pf hpf hp, parseText_sections pf hpf _ _ _ hsecs]
+
+/-- 4a. the parser never rejects a written file -/
+theorem parseFile_writeFile_ne_none (pf : List Char → Bool)
+    (hpf : ∀ t, floatRaw t = true → pf t = true) (data : List WSection)
+    (hwf : wfData data = true) : parseFile pf (writeFile data) ≠ none := by
+  rw [parseFile_writeFile_eq pf hpf data (wfData_unpack hwf).2.2.2]; simp
+
+/-- 4b. round trip: every written key is read back, in its section, with the expected value -/
+theorem parseFile_writeFile_lookup (pf : List Char → Bool)
+    (hpf : ∀ t, floatRaw t = true → pf t = true) (data : List WSection)
+    (hwf : wfData data = true) {n k : List Char} {es : List (List Char × WVal)} {v : WVal}
+    (hn : (n, es) ∈ data) (hk : (k, v) ∈ es) :
+    (parseFile pf (writeFile data)).bind (fun d => lookup d n k) = some (expectRead v) := by
+  obtain ⟨h1, h2, h3, h4⟩ := wfData_unpack hwf
+  rw [parseFile_writeFile_eq pf hpf data h4]
+  show lookup (finalData data) n k = _
+  unfold finalData
+  exact lookup_foldl_mem _ _ (secsOf_nodup data _ sectionOrder_nodup)
+    (fun s hs => h3 s (mem_secsOf hs).2) n es k v (secsOf_mem h1 hn (h2 _ hn)) hk
+
+/-- 4c. nothing else is read back: every key found by the parser was written, with that value -/
+theorem parseFile_writeFile_only (pf : List Char → Bool)
+    (hpf : ∀ t, floatRaw t = true → pf t = true) (data : List WSection)
+    (hwf : wfData data = true) {n k : List Char} {pv : PVal}
+    (h : (parseFile pf (writeFile data)).bind (fun d => lookup d n k) = some pv) :
+    ∃ es v, (n, es) ∈ data ∧ (k, v) ∈ es ∧ pv = expectRead v := by
+  rw [parseFile_writeFile_eq pf hpf data (wfData_unpack hwf).2.2.2] at h
+  change lookup (finalData data) n k = some pv at h
+  unfold finalData at h
+  rcases lookup_foldl_inv _ _ _ _ _ h with ⟨es, v, h1, h2, h3⟩ | h'
+  · exact ⟨es, v, (mem_secsOf h1).2, h2, h3⟩
+  · simp [lookup] at h'
+
+/-- 4d. no other sections: every section of the parser's data was written -/
+theorem parseFile_writeFile_sections (pf : List Char → Bool)
+    (hpf : ∀ t, floatRaw t = true → pf t = true) (data : List WSection)
+    (hwf : wfData data = true) {d : Data} (h : parseFile pf (writeFile data) = some d) :
+    ∀ x ∈ d, ∃ es, (x.1, es) ∈ data := by
+  rw [parseFile_writeFile_eq pf hpf data (wfData_unpack hwf).2.2.2] at h
+  cases h
+  intro x hx
+  unfold finalData at hx
+  rcases names_foldl _ _ x hx with ⟨s, hs, hsx⟩ | ⟨y, hy, _⟩
+  · exact ⟨s.2, hsx ▸ (mem_secsOf hs).2⟩
+  · simp at hy
+
+/-- 5. the parser is a total function (remark): it returns `some` data or `none` on every text -/
+theorem parse_total (pf : List Char → Bool) (s : List Char) : ∃ r, parseFile pf s = r := ⟨_, rfl⟩
+
+theorem splitEq_some_of_mem {l : List Char} (h : '=' ∈ l) : ∃ p, splitEq l = some p := by
+  induction l with
+  | nil => simp at h
+  | cons a l ih =>
+    by_cases ha : a = '='
+    · exact ⟨([], l), by simp [splitEq, ha]⟩
+    · have : '=' ∈ l := by
+        rcases List.mem_cons.mp h with e | e
+        · exact absurd e.symm ha
+        · exact e
+      obtain ⟨p, hp⟩ := ih this
+      exact ⟨(a :: p.1, p.2), by simp [splitEq, ha, hp]⟩
+
+/-- 5'. a line containing `=` is never a syntax error (it is a comment, a header or a key/value) -/
+theorem parseLine_ne_bad_of_eq (pf : List Char → Bool) {l : List Char} (h : '=' ∈ l) :
+    parseLine pf l ≠ .bad := by
+  obtain ⟨p, hp⟩ := splitEq_some_of_mem h
+  unfold parseLine
+  split
+  · simp
+  · split
+    · simp
+    · rw [hp]; simp
+
+/-! ## Concrete instances -/
+
+def demo : List WSection :=
+  [ ("build".toList,
+      [ ("opt-level".toList, .int 3), ("ratio".toList, .float "2".toList),
+        ("name".toList, .str " a # b = [c] ".toList) ]),
+    ("default".toList,
+      [ ("debug".toList, .bool true), ("max-depth_2".toList, .int (-9223372036854775808)),
+        ("eps".toList, .float "-0.000001".toList) ]) ]
+
+example : wfData demo = true := by decide
+
+/-- `floatRaw` itself is an admissible `pf` -/
+example : (parseFile floatRaw (writeFile demo)).bind
+      (fun d => lookup d "default".toList "max-depth_2".toList)
+    = some (.int (-9223372036854775808)) :=
+  parseFile_writeFile_lookup floatRaw (fun _ h => h) demo (by decide)
+    (n := "default".toList) (k := "max-depth_2".toList) (v := .int (-9223372036854775808))
+    (es := _) (List.mem_cons_of_mem _ (List.mem_cons_self)) (by decide)
+
+example : (parseFile floatRaw (writeFile demo)).bind
+      (fun d => lookup d "build".toList "ratio".toList) = some (.float "2.0".toList) :=
+  parseFile_writeFile_lookup floatRaw (fun _ h => h) demo (by decide)
+    (n := "build".toList) (k := "ratio".toList) (v := .float "2".toList)
+    (es := _) List.mem_cons_self (by decide)
+
+/-- an end-to-end instance evaluated outright (no integers: `natDigits` is a well-founded recursion) -/
+example :
+    parseFile floatRaw (writeFile
+      [ ("cache".toList, [("dir".toList, .str "x # y".toList), ("r".toList, .float "2".toList)]),
+        ("default".toList, [("a".toList, .bool true)]) ])
+    = some [ ("default".toList, [("a".toList, .bool true)]),
+             ("cache".toList, [("dir".toList, .str "x # y".toList), ("r".toList, .float "2.0".toList)]) ] := by
+  decide
+
+/-- blanks and a comment on a concrete line -/
+example :
+    parseLine floatRaw (trimSpace "\t max-depth_2\t=  \"a # b\" \t # note = \"x\" ".toList)
+      = .kv "max-depth_2".toList (.str "a # b".toList) := by decide
+
+/-! the hypotheses of `okStr` are needed (witnesses, `pf` rejecting everything) -/
+
+example : parseValue (fun _ => false) (formatValue (.str "true".toList)) = .bool true := by decide
+
+example : parseLine (fun _ => false)
+      (trimSpace ("k = ".toList ++ formatValue (.str "a\\".toList) ++ " # c".toList))
+    = .kv "k".toList (.str "\"a\\\" # c".toList) := by decide
+
+example : parseLine (fun _ => false) (trimSpace ("k = ".toList ++ formatValue (.str "a\"b # c".toList)))
+    = .kv "k".toList (.str "\"a\"b".toList) := by decide
 
 end FerretVerif.Toml
